@@ -45,10 +45,25 @@ def substitute(schema, chosen, prefix="R"):
     return s, rules_defs, schema_defs
 
 
+_FORM = [0]
+
+
 def make_registries(rules_defs, schema_defs):
-    rr, sr = RulesSetRegistry(), SchemaRegistry()
-    for k, v in rules_defs.items():
-        rr.add(k, copy.deepcopy(v))
-    for k, v in schema_defs.items():
-        sr.add(k, copy.deepcopy(v))
+    """the three documented ways of filling a registry, in turn: add() one by one, extend() in bulk, the constructor"""
+    _FORM[0] += 1
+    form = _FORM[0] % 3
+    rd = {k: copy.deepcopy(v) for k, v in rules_defs.items()}
+    sd = {k: copy.deepcopy(v) for k, v in schema_defs.items()}
+    if form == 0:
+        rr, sr = RulesSetRegistry(), SchemaRegistry()
+        for k, v in rd.items():
+            rr.add(k, v)
+        for k, v in sd.items():
+            sr.add(k, v)
+    elif form == 1:
+        rr, sr = RulesSetRegistry(), SchemaRegistry()
+        rr.extend(rd)
+        sr.extend(sd)
+    else:
+        rr, sr = RulesSetRegistry(rd), SchemaRegistry(sd)
     return rr, sr
